@@ -681,6 +681,7 @@ class SharesManager(BaseManager):
 
         # First round using the term map
         include_terms = []
+        wildcard_matches = []
         for term in search_query.include_terms:
             subterms = re.split(_QUERY_CLEAN_PATTERN, term)
             for subterm in subterms:
@@ -707,16 +708,20 @@ class SharesManager(BaseManager):
                     if not matching_terms:  # Optimization
                         return [], []
 
-                    include_terms.extend(matching_terms)
+                    wildcard_matches.append(matching_terms)
                 else:
                     if subterm not in self._term_map:  # Optimization
                         return [], []
 
                     include_terms.append(subterm)
 
-        found_items = set(self._term_map[include_terms[0]])
-        for include_term in include_terms:
-            found_items &= set(self._term_map[include_term])
+        # Every include term has to be present, a wildcard term is satisfied by
+        # any of the terms it is the ending of
+        candidates = [set(self._term_map[term]) for term in include_terms]
+        for matching_terms in wildcard_matches:
+            candidates.append(
+                set().union(*(self._term_map[term] for term in matching_terms)))
+        found_items = set.intersection(*candidates)
 
         # Regular expressions on the remaining items
 
